@@ -973,8 +973,8 @@ impl Injection for Base<Optional, Optional> {
                         .into(self.co_domain.data_type().clone())?
                         .value(a)
                 })
-                .map(|v| Arc::new(v.unwrap()))
-                .clone(),
+                .transpose()?
+                .map(Arc::new),
         ))
     }
 }
